@@ -281,7 +281,7 @@ pub fn runs(
                 stall_main_only: false,
                 selfcheck_every: 1,
             };
-            let small = reference.steps <= 2_500 && !w.has_tasks;
+            let small = reference.steps <= 5_000 && !w.has_tasks;
             if small {
                 // every constant budget up to the longest operand + 3 (operands are <= 12 bytes
                 // + multibyte expansion; 48 covers them), collector untouched
@@ -305,9 +305,17 @@ pub fn runs(
                         "cycle-start-at-every-string-step",
                         1,
                     ));
+                    // and the production shape: forced start there, then the pacing code itself
+                    // (the whole cycle completes while the instruction is still in flight)
+                    specs.push(fixed(
+                        base(Budget::Const(neutral), GcTemplate::SingleStartThenDefault { start_at: *at }),
+                        reference,
+                        "cycle-start-at-every-string-step",
+                        1,
+                    ));
                 }
                 exhaustive.push(format!(
-                    "single collection cycle started at each of the {} steps that execute a string instruction",
+                    "single collection cycle started at each of the {} steps that execute a string instruction (two increment shapes)",
                     reference.string_steps.len()
                 ));
             } else {
